@@ -290,6 +290,12 @@ func (x *Exec) safe(st *State, fr *Frame, kind string, pos token.Pos, goal *Term
 	if st.mute || goal == True {
 		return
 	}
+	if x.tcontract != nil && x.tcontract.noSafety {
+		// declared restriction of this function's contract: only executions without run-time panic are considered
+		x.havocked["run-time safety not checked (nosafety): "+x.targetName()] = true
+		st.assume(goal)
+		return
+	}
 	_, txt := x.srcLine(pos)
 	fn := fr.fn.RelString(nil)
 	if fr.fn.Pkg != nil {
